@@ -18,9 +18,9 @@ import (
 func init() {
 	for _, p := range []string{"C01", "C02"} {
 		prop := p
-		fams := []string{"uniform", "productive", "nullable", "prec", "prec-sep", "separators", "lalr", "dup-rules"}
+		fams := []string{"uniform", "productive", "nullable", "prec", "prec-sep", "separators", "lalr", "dup-rules", "bigauto"}
 		if prop == "C02" {
-			fams = []string{"lalr", "separators", "separators", "samehandle", "samehandle", "productive-small", "nullable", "uniform-small"}
+			fams = []string{"lalr", "separators", "separators", "samehandle", "samehandle", "productive-small", "nullable", "uniform-small", "bigauto"}
 		}
 		replay := func(c *Ctx, raw json.RawMessage) string {
 			var gc GCase
